@@ -351,6 +351,8 @@ Quiet(s, out) ==
 
 (* a line the codec rejects: invalid message, nothing else happens *)
 RecvBad(s) == Quiet(s, Err({"InvalidMessage"}, -1))
+(* bytes that are not UTF-8 arrive on a stream transport: a transport error, nothing else happens *)
+RecvUndecodable(s) == Quiet(s, Err({"Transport"}, -1))
 
 (* Gateway.send(message, message_buffer = ev.buf) for a message the codec accepts *)
 Send(s, ev, ch) ==
@@ -436,6 +438,7 @@ Choices(s, ev, hint) ==
 Step(s, ev, ch) ==
     CASE ev.k = "recv"    -> Recv(s, ev, ch)
       [] ev.k = "recvbad" -> RecvBad(s)
+      [] ev.k = "recvundec" -> RecvUndecodable(s)
       [] ev.k = "send"    -> Send(s, ev, ch)
       [] ev.k = "sendjunk" -> SendJunk(s)
       [] ev.k = "reboot"  -> SetReboot(s, ev.n)
